@@ -171,3 +171,6 @@ void run_case(ByteSource& s, CaseInfo& ci) {
   ci.nontrivial = nt;
 }
 void enumerate(const Emit&, const std::string&) {}
+
+// no defect of the pinned tree was found behind this property
+void regressions() {}
